@@ -66,7 +66,8 @@ fn pat_list(u: &mut U, max_pats: usize) -> PatList {
         2 | 3 => PatList::RareBytes { rares: { let mut v = u.bytes(2); v.push(u.u8()); v }, items: (0..1 + u.below(9)).map(|_| (u.u8(), u.bytes(6), u.bytes(5), u.u8())).collect() },
         4 => PatList::Packedish((0..3 + u.below(14)).map(|_| { let mut v = u.bytes(6); v.push(u.u8()); v.push(u.u8()); v }).collect()),
         5 => PatList::Adversarial { kind: u.below(6) as u8, k: 1 + u.below(24) as u8, n: 1 + u.below(12) as u8 },
-        6 => PatList::Fanout { prefix: u.bytes(2), n: 2 + u.below(254) as u8, start: u.u8(), tails: u.bytes(3) },
+        6 => PatList::Fanout { prefix: u.bytes(2), n: [2u16, 5, 126, 127, 128, 129, 253, 254, 255, 256][u.below(10)], start: u.u8(), tails: u.bytes(3) },
+        7 => PatList::MidPacked { raws: (0..14 + u.below(37)).map(|_| { let mut v = u.bytes(4); v.push(u.u8()); v.push(u.u8()); v }).collect(), dups: (0..1 + u.below(12)).map(|_| (u.u16(), u.u16())).collect() },
         _ => {
             let n = 1 + u.below(max_pats);
             PatList::General(
@@ -209,7 +210,7 @@ pub fn decode(prop: &str, data: &[u8]) -> Case {
         case.stop_at = if u.bool() { Some(u.below(6)) } else { None };
         if u.bool() {
             // valid UTF-8 flavour
-            const CHARS: &[char] = &['a', 'b', 'x', 'é', '€', '😀', 'A', ' '];
+            const CHARS: &[char] = &['a', 'b', 'x', 'é', '€', '😀', 'A', ' ', '\u{80}', '\u{7ff}', '\u{800}', '\u{ffff}', '\u{10000}', '\u{100000}', '\u{10ffff}'];
             let n = u.below(25);
             let s: String = (0..n).map(|_| CHARS[u.below(CHARS.len())]).collect();
             case.haystack = s.into_bytes();
